@@ -85,7 +85,23 @@ fn denom_s(d: u128) -> String {
     if d as u64 == LOOK_D.load(SeqCst) {
         return addr_s(LOOK_T.load(SeqCst) as u128);
     }
-    format!("denom{}", d)
+    // realistic spellings: an IBC denom with upper-case hex, a denom that differs from denom 0 only by letter case,
+    // and one that has denom 0 as a proper prefix (bank denoms are case-sensitive, exact strings)
+    match d {
+        0 => "uaura".to_string(),
+        1 => "ibc/27394FB092D2ECCD56123C74F36E4C1F926001CEADA9CA97EA622B25F41E5EB2".to_string(),
+        2 => "UAURA".to_string(),
+        3 => "uaurax".to_string(),
+        _ => format!("denom{}", d),
+    }
+}
+fn denom_id(s: &str) -> Option<u128> {
+    use std::sync::atomic::Ordering::SeqCst;
+    let ld = LOOK_D.load(SeqCst);
+    if ld != u64::MAX && s == denom_s(ld as u128) {
+        return Some(ld as u128);
+    }
+    (0..64u128).find(|d| *d as u64 != ld && denom_s(*d) == s)
 }
 
 struct Cur<'a> {
@@ -247,18 +263,7 @@ impl World {
         match a {
             AssetInfo::NativeToken { denom } => (
                 0,
-                denom
-                    .strip_prefix("denom")
-                    .and_then(|s| s.parse().ok())
-                    .or_else(|| {
-                        use std::sync::atomic::Ordering::SeqCst;
-                        let d = LOOK_D.load(SeqCst);
-                        if d != u64::MAX && *denom == denom_s(d as u128) {
-                            Some(d as u128)
-                        } else {
-                            None
-                        }
-                    })
+                denom_id(denom)
                     .expect("harness: foreign denom"),
             ),
             AssetInfo::Token { contract_addr } => (1, addr_id(contract_addr)),
@@ -737,8 +742,16 @@ fn exec(w: &mut World, c: &mut Cur) -> Result<AppResponse, String> {
             let caller = c.addr();
             let owner = c.opt_addr();
             // optional shape: bit 0 names the token code id, bit 1 the pair code id, both at their
-            // current values, so the modelled part of the factory's state moves exactly as without them
+            // current values, so the modelled part of the factory's state moves exactly as without them;
+            // bit 2 / bit 3 point the factory at the OTHER stored copy of the same token / pair code
             let shape = if c.more() { c.num() } else { 0 };
+            let other = |id: u64| match id {
+                2 => 5,
+                5 => 2,
+                3 => 6,
+                6 => 3,
+                x => x,
+            };
             let cfg: haloswap::factory::ConfigResponse = app
                 .wrap()
                 .query_wasm_smart(addr_s(0), &FactoryQueryMsg::Config {})
@@ -748,8 +761,20 @@ fn exec(w: &mut World, c: &mut Cur) -> Result<AppResponse, String> {
                 Addr::unchecked(addr_s(0)),
                 &FactoryExecuteMsg::UpdateConfig {
                     owner,
-                    token_code_id: if shape & 1 != 0 { Some(cfg.token_code_id) } else { None },
-                    pair_code_id: if shape & 2 != 0 { Some(cfg.pair_code_id) } else { None },
+                    token_code_id: if shape & 4 != 0 {
+                        Some(other(cfg.token_code_id))
+                    } else if shape & 1 != 0 {
+                        Some(cfg.token_code_id)
+                    } else {
+                        None
+                    },
+                    pair_code_id: if shape & 8 != 0 {
+                        Some(other(cfg.pair_code_id))
+                    } else if shape & 2 != 0 {
+                        Some(cfg.pair_code_id)
+                    } else {
+                        None
+                    },
                 },
                 &[],
             ))
@@ -801,12 +826,23 @@ fn exec(w: &mut World, c: &mut Cur) -> Result<AppResponse, String> {
         "fac_migrate" => {
             let caller = c.addr();
             let contract = c.addr();
+            // optional selector: 0 no code id, 1 the factory's current pair code id, 2 the other stored copy
+            let sel = if c.more() { c.num() } else { 0 };
+            let cfg: haloswap::factory::ConfigResponse = app
+                .wrap()
+                .query_wasm_smart(addr_s(0), &FactoryQueryMsg::Config {})
+                .expect("harness: factory config query");
+            let code_id = match sel {
+                0 => None,
+                1 => Some(cfg.pair_code_id),
+                _ => Some(if cfg.pair_code_id == 2 { 5 } else { 2 }),
+            };
             e(app.execute_contract(
                 Addr::unchecked(caller),
                 Addr::unchecked(addr_s(0)),
                 &FactoryExecuteMsg::MigratePair {
                     contract,
-                    code_id: None,
+                    code_id,
                 },
                 &[],
             ))
@@ -925,6 +961,11 @@ fn init(c: &mut Cur) -> World {
     let pair_code = app.store_code(pair_contract());
     let token_code = app.store_code(token_contract());
     let router_code = app.store_code(router_contract());
+    // second copies of the pair and LP-token code under other code ids: the same behaviour, so the model (which has no
+    // code ids) stays exact when the factory is pointed at them or a pair is migrated to them
+    let pair_code2 = app.store_code(pair_contract());
+    let token_code2 = app.store_code(token_contract());
+    assert_eq!((pair_code, token_code, pair_code2, token_code2), (2, 3, 5, 6));
     let owner = Addr::unchecked(addr_s(1000));
     let f = app
         .instantiate_contract(
